@@ -15,6 +15,9 @@
        domain): every valid input with at most 19 significant digits whose Number satisfies
        [fast_path_applies] is parsed to exactly RN (dec_value ...) in all eight configurations and both
        build modes; and the complete functional description of the fast path ([try_fast_path_eq]);
+     - END TO END for the compact configurations whenever Bellerophon is definite
+       ([parse_float_compact_definite_correct], from [bellerophon_sound], props/C11.v): valid input,
+       exponent not saturated, fast path not applicable, stage definite => exactly RN (dec_value ..);
      - the big-integer SLOW PATH (proofs/SlowFacts1*.v, SlowFacts2*.v, TruncFacts*.v; integers only):
        [parse_mantissa_spec] (the digits re-read as a big integer: first MAX_DIGITS significant digits,
        + one sticky digit iff a later digit is non-zero; never panics), [truncation_preserves_rounding]
@@ -31,8 +34,8 @@
 From Coq Require Import ZArith QArith List Bool Reals.
 From Coq Require Import Floats.SpecFloat.
 From Flocq Require Import Core.Core.
-From ML Require Import base.RustSem model.Fmt model.FloatOps model.Number model.Parse model.Vec model.Bigint model.Slow model.Top spec.Decimal spec.Round spec.RoundFacts spec.DigitsSuffice spec.RneZ
-  gen.Consts gen.Tables gen.BTables gen.PowDump proofs.ParseFacts proofs.Glue proofs.NoUB proofs.FastPathFacts proofs.EndToEnd proofs.LimbVal proofs.RoundingFactsZ proofs.NumFacts proofs.TruncFacts proofs.TruncFacts2 proofs.SlowFacts1 proofs.SlowFacts1b proofs.SlowFacts2 proofs.SlowFacts2b proofs.SlowFacts2c.
+From ML Require Import base.RustSem model.Fmt model.FloatOps model.Number model.Parse model.Vec model.Bigint model.Slow model.Bellerophon model.Top spec.Decimal spec.Round spec.RoundFacts spec.DigitsSuffice spec.RneZ
+  gen.Consts gen.Tables gen.BTables gen.PowDump proofs.ParseFacts proofs.Glue proofs.NoUB proofs.FastPathFacts proofs.EndToEnd proofs.BellFacts5 proofs.EndToEnd2 proofs.LimbVal proofs.RoundingFactsZ proofs.NumFacts proofs.TruncFacts proofs.TruncFacts2 proofs.SlowFacts1 proofs.SlowFacts1b proofs.SlowFacts2 proofs.SlowFacts2b proofs.SlowFacts2c.
 Import ListNotations.
 
 Open Scope Z_scope.
@@ -122,6 +125,33 @@ Theorem C01_parse_float_fast_correct :
          fast_path_applies f (parse_spec i fr e) = true ->
          parse_float c TABLES BT L f b i fr e = Ok (RN f (dec_value i fr e)).
 Proof. exact parse_float_fast_correct. Qed.
+
+Theorem C01_bellerophon_sound :
+  forall (f : format) (b : build) (w q : Z) (t : bool),
+         bell_ok f = true ->
+         0 <= w < 2 ^ 64 ->
+         - 2 ^ 31 <= q < 2 ^ 31 ->
+         (t = true -> 2 ^ 40 <= w) ->
+         exists fp : Num.extfloat,
+           bellerophon BTABLES f b {| nexp := q; nmant := w; many := t |} = Ok fp /\
+           (0 <= Num.exp fp ->
+            forall v : Q,
+            (if t
+             then (inject_Z w * pow10Q q <= v < inject_Z (w + 1) * pow10Q q)%Q
+             else v == inject_Z w * pow10Q q) -> RN f v = pack f fp).
+Proof. exact bellerophon_sound. Qed.
+
+Theorem C01_parse_float_compact_definite_correct :
+  forall (c : config) (f : format) (b : build) (L : limits) (i fr : list Z) (e : Z) (fp : Num.extfloat),
+         In c ALL_CONFIGS ->
+         compact c = true ->
+         f = F32 \/ f = F64 ->
+         valid_inputb i fr e = true ->
+         unsaturated i fr e ->
+         fast_path_applies f (parse_spec i fr e) = false ->
+         bellerophon BTABLES f b (parse_spec i fr e) = Ok fp ->
+         0 <= Num.exp fp -> parse_float c TABLES BTABLES L f b i fr e = Ok (RN f (dec_value i fr e)).
+Proof. exact parse_float_compact_definite_correct. Qed.
 
 Theorem C01_scientific_exponent_spec :
   forall (b : build) (n : number) (d : Z),
@@ -269,6 +299,8 @@ Print Assumptions C01_parse_number_value_bracket.
 Print Assumptions C01_try_fast_path_eq.
 Print Assumptions C01_fast_ok_all.
 Print Assumptions C01_parse_float_fast_correct.
+Print Assumptions C01_bellerophon_sound.
+Print Assumptions C01_parse_float_compact_definite_correct.
 Print Assumptions C01_scientific_exponent_spec.
 Print Assumptions C01_parse_mantissa_spec.
 Print Assumptions C01_truncation_preserves_rounding.
